@@ -29,7 +29,7 @@ func (C12) Budget(tier string) (int, time.Duration) {
 	if tier == "thorough" {
 		return 10000, 25 * time.Minute
 	}
-	return 500, 4 * time.Minute
+	return 1000, 4 * time.Minute
 }
 
 func (C12) Generate(t *tape.Tape, tier string) interface{} {
